@@ -474,6 +474,10 @@ func shapeServer() (*lib.Server, func(shape)) {
 			}
 			w.Header().Set("X-Discarded", "leak")
 			w.Header().Add("X-Dup", "discarded")
+			// ... and headers stored under non-canonical keys, by direct assignment to the map (legal; how a handler sends a
+			// header whose spelling must be preserved)
+			w.Header()["x-discarded-lower"] = []string{"leak"}
+			w.Header()["X-Discarded-ID"] = []string{"leak"}
 			w.WriteHeader(502)
 			w.Write([]byte("DISCARDED-ATTEMPT-BODY"))
 			return
